@@ -47,6 +47,17 @@ def code(name):
         return '0'
 
 
+def group_adj(pairs):
+    """[(key, value)] -> [(key, [values])]: runs of adjacent equal keys (Model/GirConsume.lean groupAdj)"""
+    out = []
+    for k, v in pairs:
+        if out and out[-1][0] == k:
+            out[-1][1].append(v)
+        else:
+            out.append((k, [v]))
+    return out
+
+
 class AttrList(object):
     """abstract list of (name, value-descriptors) tuples; shared by reference like the real list"""
 
@@ -497,19 +508,25 @@ def c15PyText : List String := %s
 /-- what the walk did not understand (must be empty) -/
 def c15PyShape : List String := %s
 
-/-! The same tables with every name written as a natural number (1, then the bytes of the name, base 256);
-    values carry their lower-cased form as a fourth component. -/
+/-! The same tables with every name written as a natural number (1, then the bytes of the name, base 256)
+    and GROUPED by their first component (runs of adjacent equal keys, `groupAdj` of Model/GirConsume.lean):
+    the `decide` obligations of Props/C15.lean are evaluated on these.  Values carry their lower-cased form.
+    The driver checks on every run that they are the coded, grouped string tables (op c15.coded). -/
 
-def c15PyChildrenN : List (Nat × Nat) := [
+/-- parent ↦ [child] -/
+def c15PyChildrenG : List (Nat × List Nat) := [
   %s]
 
-def c15PyAttrsN : List (Nat × Nat) := [
+/-- element ↦ [attribute] -/
+def c15PyAttrsG : List (Nat × List Nat) := [
   %s]
 
-def c15PyValuesN : List (Nat × Nat × Nat × Nat) := [
+/-- element ↦ [(attribute, value, lower-cased value)] -/
+def c15PyValuesG : List (Nat × List (Nat × Nat × Nat)) := [
   %s]
 
-def c15PyDynamicN : List (Nat × Nat) := [
+/-- element ↦ [attribute whose value can also be free-form] -/
+def c15PyDynamicG : List (Nat × List Nat) := [
   %s]
 
 end GIVerif.Gen
@@ -519,10 +536,11 @@ end GIVerif.Gen
        ',\n  '.join('(%s, %s)' % (lean_str(a), lean_str(b)) for a, b in dynamic),
        lean_list([lean_str(t) for t in sorted(w.text)]),
        lean_list([lean_str(s) for s in SHAPE]),
-       ',\n  '.join('(%s, %s)' % (code(a), code(b)) for a, b in children),
-       ',\n  '.join('(%s, %s)' % (code(a), code(b)) for a, b in attrs),
-       ',\n  '.join('(%s, %s, %s, %s)' % (code(a), code(b), code(c), code(c.lower())) for a, b, c in values),
-       ',\n  '.join('(%s, %s)' % (code(a), code(b)) for a, b in dynamic))
+       ',\n  '.join('(%s, [%s])' % (k, ', '.join(vs)) for k, vs in group_adj([(code(a), code(b)) for a, b in children])),
+       ',\n  '.join('(%s, [%s])' % (k, ', '.join(vs)) for k, vs in group_adj([(code(a), code(b)) for a, b in attrs])),
+       ',\n  '.join('(%s, [%s])' % (k, ', '.join(vs)) for k, vs in group_adj(
+           [(code(a), '(%s, %s, %s)' % (code(b), code(c), code(c.lower()))) for a, b, c in values])),
+       ',\n  '.join('(%s, [%s])' % (k, ', '.join(vs)) for k, vs in group_adj([(code(a), code(b)) for a, b in dynamic])))
     p, digest, changed = write_if_changed('GirVocabPy.lean', text)
     print('gen_girvocab_py: %s sha256=%s changed=%s children=%d attrs=%d values=%d dynamic=%d shape=%d'
           % (p, digest[:12], changed, len(children), len(attrs), len(values), len(dynamic), len(SHAPE)))
@@ -544,10 +562,10 @@ def c15PyValues : List (String × String × String) := []
 def c15PyDynamic : List (String × String) := []
 def c15PyText : List String := []
 def c15PyShape : List String := [%s]
-def c15PyChildrenN : List (Nat × Nat) := []
-def c15PyAttrsN : List (Nat × Nat) := []
-def c15PyValuesN : List (Nat × Nat × Nat × Nat) := []
-def c15PyDynamicN : List (Nat × Nat) := []
+def c15PyChildrenG : List (Nat × List Nat) := []
+def c15PyAttrsG : List (Nat × List Nat) := []
+def c15PyValuesG : List (Nat × List (Nat × Nat × Nat)) := []
+def c15PyDynamicG : List (Nat × List Nat) := []
 end GIVerif.Gen
 ''' % (type(e).__name__, lean_str('translator failed: %s: %s' % (type(e).__name__, str(e)[:200])))
         write_if_changed('GirVocabPy.lean', text)
